@@ -12,7 +12,7 @@ PY = "/venv/bin/python"
 OUT = os.environ.get("DETECT_OUT", "/verif/seeded/detection.json")
 # which checks to run for a change seeded against property X (its own first)
 EXTRA = {"C07": ["C02"], "C05": ["C06", "C15"], "C10": ["C11", "C04"], "C16": ["C06"], "C06": ["C16", "C04", "C12"],
-         "C19": ["C15"], "C01": ["C04", "C05"], "C02": ["C05"]}
+         "C19": ["C15"], "C01": ["C04", "C05"], "C02": ["C05", "C04"]}
 
 
 def sh(cmd, **kw):
